@@ -164,6 +164,12 @@ func (w *World) bind() {
 
 func (w *World) Store() *state.Store { return w.st }
 
+// BoundFSM returns the FSM with this world's store swapped in (clones share one FSM object).
+func (w *World) BoundFSM() *fsm.FSM {
+	w.bind()
+	return w.FSM
+}
+
 // Clone branches the world copy-on-write (see hooks VerifClone). aux is the cloned reference model.
 // The clone shares the parent's FSM object; only one of them may be used at a time (the explorer
 // uses a parent and its clones sequentially in one goroutine).
